@@ -124,6 +124,13 @@ impl Out {
         writeln!(self.oracle, "{}", json!({"site": site, "what": what, "input": input})).unwrap();
         self.n_oracle_fail += 1;
     }
+    /// `oracle_fail` for stateful properties: `ops` (the operation lines of the failing case, from its reset/init
+    /// line up to the failing operation) is stored at the top level of the record, which is where `./check` takes
+    /// the replay's operation list from.
+    pub fn oracle_fail_ops(&mut self, site: &str, what: &str, input: Value, ops: &[Value]) {
+        writeln!(self.oracle, "{}", json!({"site": site, "what": what, "input": input, "ops": ops})).unwrap();
+        self.n_oracle_fail += 1;
+    }
     pub fn count(&mut self, key: &str) {
         *self.hist.entry(key.to_string()).or_default() += 1;
     }
